@@ -66,7 +66,9 @@ def gen_case(rng, max_ops, with_restore):
     sigma0 = rng.choice([0.0, 0.5, 1.0, 1.1, 2.0, 3.3]) if rng.random() < 0.9 else rng.uniform(0.1, 4)
     c0 = rng.choice([0.1, 1.0, 1.5, 2.0, 10.0]) if rng.random() < 0.9 else rng.uniform(0.1, 4)
     ns, cs = gen_spec(rng, "n"), gen_spec(rng, "c")
-    alphabet = ["ns", "cs", "opt", "opt", "ns"]
+    # vopt = a skipped physical batch of a virtual step (signal_skip_step(True); backward; step): clipped with the
+    # bound in force when it runs, no noise, no accounting
+    alphabet = ["ns", "cs", "opt", "opt", "ns", "vopt", "cs"]
     ops = [rng.choice(alphabet) for _ in range(rng.randint(1, max_ops))]
     if with_restore and len(ops) >= 3:
         i = rng.randrange(1, len(ops) - 1)
@@ -149,16 +151,25 @@ class Real:
             if self.csched is not None:
                 self.csched.load_state_dict(self.saved[1])
             return self.live()
-        if op == "opt":
+        if op in ("opt", "vopt"):
             x = torch.tensor([[3000.0, -4000.0, 0.0]], dtype=torch.float64)  # |g| = 5000 >> C
+            w = self.model._module.fc.weight
             with rig.patched_normal("zero") as log:
-                self.opt.zero_grad()
+                if op == "vopt":
+                    self.opt.signal_skip_step(True)
+                self.opt.zero_grad()   # keeps summed_grad while the previous step was a skipped one
+                prev = getattr(w, "summed_grad", None)
+                prev = torch.zeros_like(w) if prev is None else prev.detach().clone()
                 self.model(x).sum().backward()
                 n_hist = sum(h[2] for h in self.acct.history)
                 self.opt.step()
-            assert sum(h[2] for h in self.acct.history) == n_hist + 1, "step not accounted"
-            g = self.model._module.fc.weight.grad.detach().reshape(-1)
+            # what THIS physical batch added to the clipped sum
+            g = (w.summed_grad.detach() - prev).reshape(-1)
             used_clip = float(g.norm()) * (5000.0 + 1e-6) / 5000.0
+            if op == "vopt":
+                assert sum(h[2] for h in self.acct.history) == n_hist and not log.calls, "a skipped physical batch was noised / accounted"
+                return self.live() + [used_clip]
+            assert sum(h[2] for h in self.acct.history) == n_hist + 1, "step not accounted"
             std = log.calls[-1][0] if log.calls else 0.0   # std == 0 → no draw requested
             if not log.calls:
                 std = 0.0
@@ -222,7 +233,7 @@ def run_cases(ctx, cases, variant):
                 ok = False
                 break
             for k, (x, y) in enumerate(zip(iv, mv)):
-                exact = not (o == "opt" and k == 2)
+                exact = not (o in ("opt", "vopt") and k == 2)
                 if (exact and x != y) or (not exact and not core.close(x, y, 1e-9)):
                     ok = False
             if not ok:
@@ -260,6 +271,8 @@ def closed_form_oracle(case):
         es, ec = closed(c["ns"], c["sigma0"], kn), closed(c["cs"], c["c0"], kc)
         if not (core.close(out[0], es, 1e-9) and core.close(out[1], ec, 1e-9)):
             return ("C17:closed-form", f"after {kn} noise / {kc} clip scheduler steps live (sigma, C) = {out[:2]}, closed form ({es}, {ec})", {"ops_prefix": c["ops"]})
+        if o == "vopt" and not core.close(out[2], ec, 1e-9):
+            return ("C17:value-in-force:physical-batch", f"skipped physical batch clipped with {out[2]}, bound in force {ec}", {"ops_prefix": c["ops"]})
         if o == "opt" and not (core.close(out[2], ec, 1e-9) and core.close(out[3], es * ec, 1e-9) and core.close(out[4], es, 1e-9)):
             return ("C17:value-in-force", f"optimizer step used (clip, std, accounted sigma) = {out[2:]}, scheduled ({ec}, {es*ec}, {es})", {"ops_prefix": c["ops"]})
     return None
@@ -275,9 +288,9 @@ def run(ctx):
         if ctx.thorough:  # exhaustive small scope: every op sequence of length ≤ 6 over {ns, cs, opt} for two schedule pairs
             import itertools
             for L in range(1, 7):
-                for ops in itertools.product(["ns", "cs", "opt"], repeat=L):
+                for ops in itertools.product(["ns", "cs", "opt", "vopt"], repeat=L):
                     cases.append({"sigma0": 1.1, "c0": 1.5, "ns": ("exp", 0.9), "cs": ("step", 0.5, 2), "ops": list(ops)})
-            ctx.extra["exhaustive_small_scope"] = "all op sequences of length ≤ 6 over {ns,cs,opt} for (exp 0.9, step 0.5/2)"
+            ctx.extra["exhaustive_small_scope"] = "all op sequences of length ≤ 6 over {ns,cs,opt,vopt} for (exp 0.9, step 0.5/2)"
         run_cases(ctx, cases, variant)
         # the property itself on restore: known finding D8 on the unchanged tree
         if variant == "asCoded":
